@@ -219,7 +219,9 @@ func checkC16(c *Ctx) {
 			w.Fail("print-routes", map[string]interface{}{"Vs": lists[i]}, d)
 		}
 		if i%997 == 3 {
-			recoverTo(func() { w.Sample(map[string]interface{}{"operands": descArgs(args), "Sprint": q(string(redact.Sprint(args...)))}) })
+			recoverTo(func() {
+				w.Sample(map[string]interface{}{"operands": descArgs(args), "Sprint": q(string(redact.Sprint(args...)))})
+			})
 		}
 	})
 	sp := midDirectives()
